@@ -51,7 +51,8 @@ Section Fixed.
 Variable single : bool.
 Variable ext : list Z.
 Variable tight : bool.
-Notation cfx := (cfgF single ext tight) (only parsing).
+Variable chk : list N -> list N -> bool.     (* an arbitrary application passwordCheck callback *)
+Notation cfx := (cfgF single ext tight chk) (only parsing).
 
 (* ---------------------------------------------------------------- leaf facts *)
 Lemma take_rand_length : forall rand n, length (fst (take_rand rand n)) = n.
@@ -142,7 +143,7 @@ Lemma client_init_ok : forall s c b c' co,
 Proof.
   intros s c b c' co H [Hok _] Ha. unfold client_init in H. injection H as <- <-.
   split; [split; reflexivity|]. split; [|intros [H|H]; discriminate H].
-  intros Hp _. destruct (Hok Hp Ha) as [r [pw [H1 [H2 H3]]]]. exists r, pw. cbn. auto.
+  intros Hp _. destruct (Hok Hp Ha) as [r [H1 H2]]. exists r. cbn. auto.
 Qed.
 
 Lemma client_init_unprotected : forall s c b c' co,
@@ -222,7 +223,7 @@ Proof.
       destruct (send_challenge_ok s _ _ _ _ Es) as [Hs [Hok _]]. split; assumption.
     + destruct (auth_none s c) as [c1 co1] eqn:Ea. injection H as <- <- <-.
       eapply auth_none_ok; [exact Ea|]. apply HN. reflexivity.
-    + destruct (cfg_tight (cfgF single ext tight) && Nat.eqb k 2).
+    + destruct (cfg_tight (cfgF single ext tight chk) && Nat.eqb k 2).
       * injection H as <- <- <-. apply tight_start_ok.
       * injection H as <- <- <-. split; [split; reflexivity|apply ok_closed].
     + injection H as <- <- <-. split; [split; reflexivity|apply ok_closed].
@@ -245,10 +246,11 @@ Lemma password_check_fixed : forall s c resp b c1,
   password_check cfx s c resp = (b, c1) ->
   same c c1 /\ c_resp c1 = c_resp c /\ c_sent c1 = c_sent c /\ c_st c1 = c_st c /\ c_pws c1 = c_pws c /\
   (b = true -> length (c_chal c) = 16%nat ->
-   exists pw, In pw (screen_passwords s) /\ vnc_encrypt pw (c_chal c) = Some resp).
+   (exists pw, In pw (screen_passwords s) /\ vnc_encrypt pw (c_chal c) = Some resp) \/
+   c_judged c1 = Some (c_chal c, resp)).
 Proof.
-  intros s c resp b c1 H. unfold password_check, screen_passwords in *.
-  destruct (s_pw s) as [|pws fvo|content].
+  intros s c resp b c1 H. unfold password_check, screen_passwords in *. cbn [cfgF cfg_enc_fail cfg_check] in H.
+  destruct (s_pw s) as [|pws fvo|content|].
   - injection H as <- <-. repeat split; intros; discriminate.
   - destruct (check_list cfx pws (c_chal c) resp 0) as [i|] eqn:Ec.
     + injection H as <- <-.
@@ -256,14 +258,16 @@ Proof.
                 same c c2 /\ c_resp c2 = c_resp c /\ c_sent c2 = c_sent c /\ c_st c2 = c_st c /\ c_pws c2 = c_pws c).
       { intros c2 ->. destruct (fvo <=? i)%Z; repeat split. }
       destruct (Hsame _ eq_refl) as [A [B [C [D E]]]]. repeat split; try assumption; try apply A.
-      intros _ Hl. destruct (check_list_in _ _ _ _ _ _ Ec) as [pw [Hin Hb]].
+      intros _ Hl. left. destruct (check_list_in _ _ _ _ _ _ Ec) as [pw [Hin Hb]].
       exists pw. split; [exact Hin|]. apply bytes_eqb_eq in Hb. rewrite <- Hb. apply encrypt_bytes_fixed. exact Hl.
     + injection H as <- <-. repeat split; intros; discriminate.
   - destruct (decrypt_passwd_file content) as [pw|] eqn:Ed.
     + injection H as <- <-. repeat split.
-      intros Hb Hl. exists pw. split; [left; reflexivity|].
+      intros Hb Hl. left. exists pw. split; [left; reflexivity|].
       apply bytes_eqb_eq in Hb. rewrite <- Hb. apply encrypt_bytes_fixed. exact Hl.
     + injection H as <- <-. repeat split; intros; discriminate.
+  - destruct (chk (c_chal c) resp); injection H as <- <-; repeat split; try (intros; discriminate).
+    intros _ _. right. reflexivity.
 Qed.
 
 Lemma on_response_ok : forall s e c resp e' c',
@@ -277,8 +281,11 @@ Proof.
   destruct b.
   - injection H as <- <-. split; [split; cbn; assumption|].
     split; [|intros [A|A]; discriminate A]. intros _ _.
-    destruct (Hpw eq_refl) as [pw [Hin Henc]]. { cbn. rewrite Hch. exact Hlen. }
-    exists resp, pw. cbn. rewrite Hr, Hs, Hpws. cbn in Henc. rewrite Hch in Henc. auto.
+    assert (Hl16 : length (c_chal (set_pws (set_resp c resp) (screen_passwords s))) = 16%nat) by (cbn; rewrite Hch; exact Hlen).
+    exists resp. cbn. rewrite Hr, Hs, Hpws. split; [reflexivity|].
+    destruct (Hpw eq_refl Hl16) as [[pw [Hin Henc]]|Hj].
+    + left. exists pw. cbn in Henc. rewrite Hch in Henc. auto.
+    + right. cbn in Hj. rewrite Hj, Hch. reflexivity.
   - injection H as <- <-. split.
     + destruct (7 <? c_minor c)%Z; split; cbn; assumption.
     + apply ok_closed.
@@ -394,7 +401,7 @@ Proof. intros p [st|] H; exact H. Qed.
 
 Lemma step_inv : forall p o, inv p -> inv (step cfx p o).
 Proof.
-  intros p o Hinv. destruct o as [s|k|k|b|s rev bytes eof|c bytes eof|s content|s|s ubytes]; cbn [step].
+  intros p o Hinv. destruct o as [s|k|k|b|s rev bytes eof|c bytes eof|s content|s lpws lfvo|s|s ubytes]; cbn [step].
   - unfold inv in *. cbn [p_screens p_conns]. eapply Forall_impl; [|exact Hinv].
     intros c Hc. apply conn_ok_more_screens. exact Hc.
   - destruct (is_ext k); [apply with_hs_inv|]; exact Hinv.
@@ -405,7 +412,16 @@ Proof.
     constructor; [|constructor]. exists scr. split; [exact Hs|]. apply ok_idle; cbn; congruence.
   - apply deliver_inv. exact Hinv.
   - destruct (nth_error (p_screens p) s) as [scr|] eqn:Hs; [|exact Hinv].
-    destruct (s_pw scr) as [| |old] eqn:Hpw; try exact Hinv.
+    destruct (s_pw scr) as [| |old|] eqn:Hpw; try exact Hinv.
+    unfold inv in *. cbn [p_screens p_conns]. eapply Forall_impl; [|exact Hinv].
+    intros c [s0 [Hs0 Hok]]. destruct (Nat.eq_dec (c_screen c) s) as [E|E].
+    + rewrite E in Hs0. rewrite Hs in Hs0. injection Hs0 as <-.
+      eexists. split; [rewrite E; apply nth_error_set_nth_eq; apply nth_error_Some; congruence|].
+      destruct Hok as [H1 H2]. split; [|exact H2]. intros Hp. apply H1.
+      unfold protected, has_password in *. cbn [s_pw] in Hp. rewrite Hpw. exact Hp.
+    + exists s0. split; [rewrite nth_error_set_nth_neq by congruence; exact Hs0|exact Hok].
+  - destruct (nth_error (p_screens p) s) as [scr|] eqn:Hs; [|exact Hinv].
+    destruct (s_pw scr) as [|opws ofvo| |] eqn:Hpw; try exact Hinv.
     unfold inv in *. cbn [p_screens p_conns]. eapply Forall_impl; [|exact Hinv].
     intros c [s0 [Hs0 Hok]]. destruct (Nat.eq_dec (c_screen c) s) as [E|E].
     + rewrite E in Hs0. rewrite Hs in Hs0. injection Hs0 as <-.
@@ -415,7 +431,7 @@ Proof.
     + exists s0. split; [rewrite nth_error_set_nth_neq by congruence; exact Hs0|exact Hok].
   - destruct (nth_error (p_screens p) s); exact Hinv.
   - destruct (nth_error (p_screens p) s) as [scr|]; [|exact Hinv].
-    destruct (existsb (Nat.eqb s) (p_udp p) && udp_wellformed ubytes && negb (cfg_udp_gated (cfgF single ext tight) && has_password scr)); exact Hinv.
+    destruct (existsb (Nat.eqb s) (p_udp p) && udp_wellformed ubytes && negb (cfg_udp_gated (cfgF single ext tight chk) && has_password scr)); exact Hinv.
 Qed.
 
 Lemma run_inv : forall ops p, inv p -> inv (run cfx p ops).
@@ -743,7 +759,7 @@ Qed.
 Definition foreign (ci s : nat) (o : op) : bool :=
   match o with
   | OSend c _ _ => negb (Nat.eqb c ci)
-  | OSetFile s' _ => negb (Nat.eqb s' s)
+  | OSetFile s' _ | OSetList s' _ _ => negb (Nat.eqb s' s)
   | _ => true
   end.
 
@@ -758,7 +774,7 @@ Lemma step_frame : forall cf p o ci s scr c,
   acyc (p_hs p') = true /\ nth_error (p_screens p') s = Some scr /\ nth_error (p_conns p') ci = Some c.
 Proof.
   intros cf p o ci s scr c Hf Hb Hs Hn Hnn. cbv zeta.
-  destruct o as [s0|k|k|b|s0 rev bytes eof|cj bytes eof|s0 content|s0|s0 ubytes]; cbn [step foreign] in *.
+  destruct o as [s0|k|k|b|s0 rev bytes eof|cj bytes eof|s0 content|s0 lpws lfvo|s0|s0 ubytes]; cbn [step foreign] in *.
   - split; [exact Hb|]. split; [|exact Hn]. cbn [p_screens].
     rewrite nth_error_app1; [exact Hs|]. apply nth_error_Some. congruence.
   - destruct (is_ext k) eqn:Ek; [|repeat split; assumption].
@@ -776,6 +792,11 @@ Proof.
     destruct (deliver_frame (S (length bytes)) cf p cj bytes eof Hb) as [I1 [I2 I3]].
     split; [exact I1|]. split; [rewrite I2; exact Hs|].
     apply I3; [congruence|exact Hn|exact Hnn].
+  - apply negb_true_iff in Hf. apply Nat.eqb_neq in Hf.
+    destruct (nth_error (p_screens p) s0) as [scr0|]; [|repeat split; assumption].
+    destruct (s_pw scr0); try (repeat split; assumption).
+    cbn [p_hs p_screens p_conns]. split; [exact Hb|]. split; [|exact Hn].
+    rewrite nth_error_set_nth_neq by congruence. exact Hs.
   - apply negb_true_iff in Hf. apply Nat.eqb_neq in Hf.
     destruct (nth_error (p_screens p) s0) as [scr0|]; [|repeat split; assumption].
     destruct (s_pw scr0); try (repeat split; assumption).
@@ -803,7 +824,7 @@ Qed.
    is the world of all traces *)
 Lemma step_acyc : forall cf p o, acyc (p_hs p) = true -> acyc (p_hs (step cf p o)) = true.
 Proof.
-  intros cf p o Hb. destruct o as [s0|k|k|b|s0 rev bytes eof|cj bytes eof|s0 content|s0|s0 ubytes]; cbn [step]; try exact Hb.
+  intros cf p o Hb. destruct o as [s0|k|k|b|s0 rev bytes eof|cj bytes eof|s0 content|s0 lpws lfvo|s0|s0 ubytes]; cbn [step]; try exact Hb.
   - destruct (is_ext k) eqn:Ek; [|exact Hb].
     destruct (acyc_register (p_hs p) k Hb Ek) as [st' [-> Ha']]. exact Ha'.
   - destruct (is_ext k) eqn:Ek; [|exact Hb].
@@ -813,6 +834,7 @@ Proof.
              (mkProc (p_hs p) (p_screens p) (p_conns p ++ [new_conn s0 rev]) (p_rand p) (p_err p) (p_unmod p) (p_udp p) (p_input p))
              (length (p_conns p)) bytes eof Hb).
   - apply (deliver_frame (S (length bytes)) cf p cj bytes eof Hb).
+  - destruct (nth_error (p_screens p) s0) as [scr0|]; [|exact Hb]. destruct (s_pw scr0); exact Hb.
   - destruct (nth_error (p_screens p) s0) as [scr0|]; [|exact Hb]. destruct (s_pw scr0); exact Hb.
   - destruct (nth_error (p_screens p) s0); exact Hb.
   - destruct (nth_error (p_screens p) s0) as [scr0|]; [|exact Hb].
@@ -913,7 +935,8 @@ Proof.
   { pose proof (encrypt_bytes_fixed pw (c_chal c) Hlen) as E. rewrite Henc in E. injection E as <-. apply bytes_eqb_refl. }
   assert (Hpc : exists c1, password_check cfx scr (set_pws (set_resp c r) (screen_passwords scr)) r = (true, c1) /\
                   c_out c1 = c_out c /\ c_screen c1 = c_screen c /\ c_rev c1 = c_rev c /\ c_resp c1 = Some r).
-  { unfold password_check, screen_passwords in *. destruct (s_pw scr) as [|pws fvo|content].
+  { unfold password_check, screen_passwords in *. cbn [cfgF cfg_enc_fail cfg_check].
+    destruct (s_pw scr) as [|pws fvo|content|]; [| | |contradiction].
     - contradiction.
     - cbn [c_chal set_resp set_pws]. destruct (check_list_complete cfx pws (c_chal c) r pw 0%Z Hin Hmatch) as [i Hi].
       rewrite Hi. eexists. split; [reflexivity|]. destruct (fvo <=? i)%Z; repeat split.
@@ -1097,7 +1120,8 @@ Qed.
 Lemma password_check_out : forall cf s c r b c1,
   password_check cf s c r = (b, c1) -> c_out c1 = c_out c /\ c_minor c1 = c_minor c.
 Proof.
-  intros cf s c r b c1 H. unfold password_check in H. destruct (s_pw s) as [|pws fvo|content].
+  intros cf s c r b c1 H. unfold password_check in H. destruct (s_pw s) as [|pws fvo|content|]; [| | |destruct (cfg_check cf (c_chal c) r); injection H as <- <-; auto];
+  try (destruct (cfg_enc_fail cf); [injection H as <- <-; auto|]).
   - injection H as <- <-. auto.
   - destruct (check_list cf pws (c_chal c) r 0); injection H as <- <-; [destruct (fvo <=? z)%Z|]; auto.
   - destruct (decrypt_passwd_file content); injection H as <- <-; auto.
@@ -1123,13 +1147,15 @@ Qed.
 Lemma versions_failure : forall scr e c r,
   c_st c = StAuth -> length (c_chal c) = 16%nat ->
   (forall pw, In pw (screen_passwords scr) -> vnc_encrypt pw (c_chal c) <> Some r) ->
+  (s_pw scr = PwCustom -> chk (c_chal c) r = false) ->
   exists c', on_message cfx scr e c r = (e, c', false) /\ c_st c' = StClosed /\
     c_out c' = c_out c ++ auth_failed ++
                (if (7 <? c_minor c)%Z then be32 (N.of_nat (length reason_failed)) ++ reason_failed else []).
 Proof.
-  intros scr e c r Hst Hl Hno. unfold on_message. rewrite Hst. unfold on_response.
+  intros scr e c r Hst Hl Hno Hcu. unfold on_message. rewrite Hst. unfold on_response.
   assert (Hpc : exists c1, password_check cfx scr (set_pws (set_resp c r) (screen_passwords scr)) r = (false, c1)).
-  { unfold password_check, screen_passwords in *. destruct (s_pw scr) as [|pws fvo|content].
+  { unfold password_check, screen_passwords in *. cbn [cfgF cfg_enc_fail cfg_check].
+    destruct (s_pw scr) as [|pws fvo|content|]; [| | |cbn [c_chal set_resp set_pws]; rewrite (Hcu eq_refl); eauto].
     - eauto.
     - cbn [c_chal set_resp set_pws]. rewrite check_list_none; [eauto|].
       intros pw Hin. apply no_match_fixed; [exact Hl|]. apply Hno. exact Hin.
@@ -1233,7 +1259,8 @@ Qed.
 Lemma password_check_told : forall cf s c r b c1,
   password_check cf s c r = (b, c1) -> c_told c1 = c_told c.
 Proof.
-  intros cf s c r b c1 H. unfold password_check in H. destruct (s_pw s) as [|pws fvo|content].
+  intros cf s c r b c1 H. unfold password_check in H. destruct (s_pw s) as [|pws fvo|content|]; [| | |destruct (cfg_check cf (c_chal c) r); injection H as <- <-; auto];
+  try (destruct (cfg_enc_fail cf); [injection H as <- <-; auto|]).
   - injection H as <- <-. reflexivity.
   - destruct (check_list cf pws (c_chal c) r 0); injection H as <- <-; [destruct (fvo <=? z)%Z|]; reflexivity.
   - destruct (decrypt_passwd_file content); injection H as <- <-; reflexivity.
@@ -1319,7 +1346,7 @@ Proof.
     - destruct msg as [|b msg]; [injection H as <- <- <-; split; assumption|].
       injection H as <- <- <-. split; [intros _; right; left; reflexivity|].
       intros Hpr _. assert (G : granted c = true) by (unfold granted; rewrite Hs; reflexivity).
-      destruct Hok as [Hg _]. destruct (Hg Hpr G) as [r [pw [A [B C]]]]. exists r, pw. cbn. auto.
+      destruct Hok as [Hg _]. destruct (Hg Hpr G) as [r [A B]]. exists r. cbn. auto.
     - injection H as <- <- <-. split; assumption.
     - injection H as <- <- <-. split; assumption. }
   destruct (on_message_told _ _ _ _ _ _ _ H) as [Ht|[Ht|Hg]].
@@ -1339,7 +1366,7 @@ Qed.
 Lemma wire_closed : forall s c, wire s c -> wire s (set_st c StClosed).
 Proof.
   intros s c [W1 W2]. split; [intros _; right; right; reflexivity|].
-  intros Hp T. destruct (W2 Hp T) as [r [pw [A [B C]]]]. exists r, pw. cbn. auto.
+  intros Hp T. destruct (W2 Hp T) as [r [A B]]. exists r. cbn. auto.
 Qed.
 
 Definition conn_okw (screens : list screen) (c : conn) : Prop :=
@@ -1404,7 +1431,7 @@ Qed.
 
 Lemma step_invw : forall p o, invw p -> invw (step cfx p o).
 Proof.
-  intros p o Hinv. destruct o as [s|k|k|b|s rev bytes eof|c bytes eof|s content|s|s ubytes]; cbn [step].
+  intros p o Hinv. destruct o as [s|k|k|b|s rev bytes eof|c bytes eof|s content|s lpws lfvo|s|s ubytes]; cbn [step].
   - unfold invw in *. cbn [p_screens p_conns]. eapply Forall_impl; [|exact Hinv].
     intros c [s0 [Hs Hr]]. exists s0. split; [|exact Hr].
     rewrite nth_error_app1; [exact Hs|]. apply nth_error_Some. congruence.
@@ -1417,12 +1444,24 @@ Proof.
     split; [intros [[]|[]]|intros _ [[]|[]]].
   - apply deliver_invw. exact Hinv.
   - destruct (nth_error (p_screens p) s) as [scr|] eqn:Hs; [|exact Hinv].
-    destruct (s_pw scr) as [| |old] eqn:Hpw; try exact Hinv.
+    destruct (s_pw scr) as [| |old|] eqn:Hpw; try exact Hinv.
     unfold invw in *. cbn [p_screens p_conns]. eapply Forall_impl; [|exact Hinv].
     intros c [s0 [Hs0 [Hok Hw]]]. destruct (Nat.eq_dec (c_screen c) s) as [E|E].
     + rewrite E in Hs0. rewrite Hs in Hs0. injection Hs0 as <-.
       eexists. split; [rewrite E; apply nth_error_set_nth_eq; apply nth_error_Some; congruence|].
       assert (Hp : forall x, protected (mkScreen (PwFile content) (s_w scr) (s_h scr) (s_name scr)) x = protected scr x).
+      { intros x. unfold protected, has_password. cbn [s_pw]. rewrite Hpw. reflexivity. }
+      split.
+      * destruct Hok as [H1 H2]. split; [|exact H2]. intros Hpr. apply H1. rewrite <- Hp. exact Hpr.
+      * destruct Hw as [W1 W2]. split; [exact W1|]. intros Hpr. apply W2. rewrite <- Hp. exact Hpr.
+    + exists s0. split; [rewrite nth_error_set_nth_neq by congruence; exact Hs0|]. split; assumption.
+  - destruct (nth_error (p_screens p) s) as [scr|] eqn:Hs; [|exact Hinv].
+    destruct (s_pw scr) as [|opws ofvo| |] eqn:Hpw; try exact Hinv.
+    unfold invw in *. cbn [p_screens p_conns]. eapply Forall_impl; [|exact Hinv].
+    intros c [s0 [Hs0 [Hok Hw]]]. destruct (Nat.eq_dec (c_screen c) s) as [E|E].
+    + rewrite E in Hs0. rewrite Hs in Hs0. injection Hs0 as <-.
+      eexists. split; [rewrite E; apply nth_error_set_nth_eq; apply nth_error_Some; congruence|].
+      assert (Hp : forall x, protected (mkScreen (PwList lpws lfvo) (s_w scr) (s_h scr) (s_name scr)) x = protected scr x).
       { intros x. unfold protected, has_password. cbn [s_pw]. rewrite Hpw. reflexivity. }
       split.
       * destruct Hok as [H1 H2]. split; [|exact H2]. intros Hpr. apply H1. rewrite <- Hp. exact Hpr.
@@ -1520,7 +1559,8 @@ Proof.
   { pose proof (encrypt_bytes_fixed pw ch Hch) as E. rewrite Hr in E. injection E as <-. apply bytes_eqb_refl. }
   assert (Hpc : exists c3, password_check cfx scr (set_pws (set_resp c2 r) (screen_passwords scr)) r = (true, c3) /\
                   c_out c3 = c_out c2 /\ c_resp c3 = Some r /\ c_told c3 = c_told c2).
-  { unfold password_check, screen_passwords in *. destruct (s_pw scr) as [|pws fvo|content].
+  { unfold password_check, screen_passwords in *. cbn [cfgF cfg_enc_fail cfg_check].
+    destruct (s_pw scr) as [|pws fvo|content|]; [| | |contradiction].
     - contradiction.
     - cbn [c_chal set_resp set_pws c2 set_st set_chal add_out set_sent].
       destruct (check_list_complete cfx pws ch r pw 0%Z Hin Hmatch) as [i Hi].
@@ -1585,7 +1625,7 @@ Qed.
 
 Lemma step_input_ok : forall p o, input_ok p -> input_ok (step cfx p o).
 Proof.
-  intros p o H. destruct o as [s0|k|k|b|s0 rev bytes eof|cj bytes eof|s0 content|s0|s0 ubytes]; cbn [step].
+  intros p o H. destruct o as [s0|k|k|b|s0 rev bytes eof|cj bytes eof|s0 content|s0 lpws lfvo|s0|s0 ubytes]; cbn [step].
   - intros s1 Hs. destruct (H s1 Hs) as [scr [A B]]. exists scr. split; [|exact B]. cbn [p_screens].
     rewrite nth_error_app1; [exact A|]. apply nth_error_Some. congruence.
   - destruct (is_ext k); [destruct (hs_register REC_FUEL (p_hs p) (Some k))|]; exact H.
@@ -1598,6 +1638,12 @@ Proof.
     rewrite A in Hs. rewrite S. exact (H s1 Hs).
   - intros s1 Hs. destruct (deliver_udp_fields (S (length bytes)) cfx p cj bytes eof) as [A [_ S]].
     rewrite A in Hs. rewrite S. exact (H s1 Hs).
+  - destruct (nth_error (p_screens p) s0) as [scr0|] eqn:E0; [|exact H].
+    destruct (s_pw scr0) eqn:Epw; try exact H.
+    intros s1 Hs. cbn [p_input p_screens] in *. destruct (H s1 Hs) as [scr [A B]].
+    destruct (Nat.eq_dec s1 s0) as [->|Hne].
+    + rewrite E0 in A. injection A as <-. unfold has_password in B. rewrite Epw in B. discriminate.
+    + exists scr. split; [rewrite nth_error_set_nth_neq by congruence; exact A|exact B].
   - destruct (nth_error (p_screens p) s0) as [scr0|] eqn:E0; [|exact H].
     destruct (s_pw scr0) eqn:Epw; try exact H.
     intros s1 Hs. cbn [p_input p_screens] in *. destruct (H s1 Hs) as [scr [A B]].
@@ -1636,6 +1682,7 @@ Definition op_valid (p : proc) (o : op) : Prop :=
   | OConn s _ _ _ | OUdpOn s | OUdp s _ => (s < length (p_screens p))%nat
   | OSend c _ _ => (c < length (p_conns p))%nat
   | OSetFile s _ => exists scr c0, nth_error (p_screens p) s = Some scr /\ s_pw scr = PwFile c0
+  | OSetList s _ _ => exists scr l0 f0, nth_error (p_screens p) s = Some scr /\ s_pw scr = PwList l0 f0
   | _ => True
   end.
 
@@ -1684,7 +1731,7 @@ Proof.
     destruct (hs_find LIST_FUEL (htypes ext) false (e_hs e) (h_head (e_hs e)) (Z.of_N b) (primary_type s c)) as [[| |k|]|]; [| | | |contradiction].
     + unfold send_challenge in H. destruct (take_rand (e_rand e) (Z.to_nat c05_CHALLENGESIZE)). injection H as <- <- <-. exact He.
     + destruct (auth_none s c). injection H as <- <- <-. exact He.
-    + destruct (cfg_tight (cfgF single ext tight) && Nat.eqb k 2); injection H as <- <- <-; exact He.
+    + destruct (cfg_tight (cfgF single ext tight chk) && Nat.eqb k 2); injection H as <- <- <-; exact He.
     + injection H as <- <- <-. exact He.
   - destruct (on_tight_auth e c msg) as [e1 c1] eqn:E. injection H as <- <- <-.
     unfold on_tight_auth in E. destruct (N.eqb (bytes_to_N msg) (Z.to_N c05_rfbSecTypeVncAuth)).
@@ -1759,7 +1806,7 @@ Lemma step_no_err : forall p o,
   p_err (step cfx p o) = false.
 Proof.
   intros p o Hinv Ha Hext He Hv.
-  destruct o as [s0|k|k|b|s0 rev bytes eof|cj bytes eof|s0 content|s0|s0 ubytes]; cbn [step op_valid] in *.
+  destruct o as [s0|k|k|b|s0 rev bytes eof|cj bytes eof|s0 content|s0 lpws lfvo|s0|s0 ubytes]; cbn [step op_valid] in *.
   - exact He.
   - rewrite Hv. destruct (acyc_register (p_hs p) k Ha Hv) as [st' [-> _]]. exact He.
   - rewrite Hv. destruct (acyc_unregister (cfg_unreg_single cfx) (p_hs p) k Ha Hv) as [st' [-> _]]. exact He.
@@ -1772,6 +1819,7 @@ Proof.
     + lia.
   - apply deliver_no_err; try assumption. lia.
   - destruct Hv as [scr [c0 [-> ->]]]. exact He.
+  - destruct Hv as [scr [l0 [f0 [-> ->]]]]. exact He.
   - destruct (nth_error (p_screens p) s0) eqn:Hs; [exact He|apply nth_error_None in Hs; lia].
   - destruct (nth_error (p_screens p) s0) as [scr|] eqn:Hs; [|apply nth_error_None in Hs; lia].
     match goal with |- context [if ?b then _ else _] => destruct b end; exact He.
@@ -1857,7 +1905,8 @@ Proof. intros. apply deliver_fuel_indep; lia. Qed.
 Lemma password_check_keeps : forall cf s c r b c1,
   password_check cf s c r = (b, c1) -> c_pws c1 = c_pws c /\ c_resp c1 = c_resp c.
 Proof.
-  intros cf s c r b c1 H. unfold password_check in H. destruct (s_pw s) as [|pws fvo|content].
+  intros cf s c r b c1 H. unfold password_check in H. destruct (s_pw s) as [|pws fvo|content|]; [| | |destruct (cfg_check cf (c_chal c) r); injection H as <- <-; auto];
+  try (destruct (cfg_enc_fail cf); [injection H as <- <-; auto|]).
   - injection H as <- <-. auto.
   - destruct (check_list cf pws (c_chal c) r 0); injection H as <- <-; [destruct (fvo <=? z)%Z|]; auto.
   - destruct (decrypt_passwd_file content); injection H as <- <-; auto.
@@ -1871,4 +1920,41 @@ Proof.
   destruct (password_check_keeps _ _ _ _ _ _ E) as [A B]. cbn in A, B.
   destruct b; injection H as <- <-; [cbn; auto|].
   destruct (7 <? c_minor c)%Z; cbn; auto.
+Qed.
+
+(* ---------------------------------------------------------------- failing DES backend (fail closed)
+   vncauth.c rfbEncryptBytes: if encrypt_rfbdes fails the buffer is filled with random bytes;
+   rfbDecryptPasswdFromFile returns NULL if decrypt_rfbdes fails.  Whatever the other flags, the
+   password list / file, the challenge and the response: with a failing backend the two built-in
+   callbacks refuse - the client is told "failed" and closed, never granted. *)
+Lemma encrypt_failure_refuses : forall cf s e c resp e' c',
+  cfg_enc_fail cf = true -> s_pw s <> PwCustom ->
+  on_response cf s e c resp = (e', c') ->
+  c_st c' = StClosed /\ granted c' = false /\ c_told c' = c_told c ++ [TokFail].
+Proof.
+  intros cf s e c resp e' c' Hf Hm H. unfold on_response, password_check in H. rewrite Hf in H.
+  destruct (s_pw s); try contradiction; injection H as <- <-;
+    destruct (7 <? c_minor c)%Z; cbn; repeat split.
+Qed.
+
+(* for a screen whose callback is not one of the two built-in ones (no password set recorded),
+   [proved] says exactly: the callback returned TRUE for the challenge sent on this connection and
+   the response read from it *)
+Lemma proved_custom : forall c, proved c -> c_pws c = [] ->
+  exists r, c_resp c = Some r /\ c_judged c = Some (c_sent c, r).
+Proof.
+  intros c [r [Hr [[pw [Hin _]]|Hj]]] Hp; [rewrite Hp in Hin; contradiction|eauto].
+Qed.
+
+(* c_judged is only ever set by on_response, to the pair the callback has just accepted *)
+Lemma judged_is_verdict : forall cf s e c resp e' c',
+  on_response cf s e c resp = (e', c') -> s_pw s = PwCustom ->
+  (c_judged c' = Some (c_chal c, resp) /\ cfg_check cf (c_chal c) resp = true /\ c_st c' = StInit) \/
+  (c_judged c' = c_judged c /\ cfg_check cf (c_chal c) resp = false /\ c_st c' = StClosed).
+Proof.
+  intros cf s e c resp e' c' H Hm. unfold on_response, password_check in H. rewrite Hm in H.
+  cbn [c_chal set_pws set_resp] in H.
+  destruct (cfg_check cf (c_chal c) resp) eqn:E; injection H as <- <-.
+  - left. repeat split.
+  - right. destruct (7 <? c_minor c)%Z; repeat split.
 Qed.
